@@ -21,6 +21,10 @@ RUNS = {
     "default": {"quick": 480, "thorough": 20000},
     "C04": {"quick": 640, "thorough": 60000},
     "C01": {"quick": 480, "thorough": 30000},
+    "C05": {"quick": 480, "thorough": 30000},
+    "C06": {"quick": 480, "thorough": 30000},
+    "C07": {"quick": 480, "thorough": 30000},
+    "C12": {"quick": 480, "thorough": 30000},
 }
 DEFAULT_SEED = 20260928
 WATCHDOG = {"quick": 900, "thorough": 3 * 3600}
